@@ -67,6 +67,19 @@ Fixpoint run_ops_pinned (b : buf) (ops : list op) : buf * bool :=
   | o :: r => let '(b', ok) := buf_op_pinned b o in if ok then run_ops_pinned b' r else (b', false)
   end.
 
+(** one buffer reused for many messages (Reset after each message that was taken out) *)
+Fixpoint buffer_session (b : buf) (msgs : list (list op)) : list (option Z) :=
+  match msgs with
+  | [] => []
+  | ops :: rest =>
+    let '(b', ok) := run_ops b ops in
+    (if ok then Some (frame_len b') else None) :: buffer_session (reset b') rest
+  end.
+
+(** the same message on a buffer of its own *)
+Definition fresh_result (lim : Z) (ops : list op) : option Z :=
+  let '(b', ok) := run_ops (new_buf lim) ops in if ok then Some (frame_len b') else None.
+
 (** * Messages *)
 (** [hdr]: length of the marshalled FContext header block (one Write, protocol.go writeHeader);
     [body]: the writes of WriteMessageBegin .. WriteMessageEnd, Flush. *)
@@ -111,47 +124,40 @@ Definition transport_check (t : transport) (framed : Z) : bool :=
     [rhdr]   marshalled response headers;
     [mhdr]   marshalled header block holding the op id only (sendError's fallback);
     [rbody]  WriteMessageBegin(REPLY) .. Flush of the normal reply;
-    [egroups] the RESPONSE_TOO_LARGE exception reply, one group per protocol call
-              (WriteMessageBegin, exception.Write, WriteMessageEnd, Flush): sendError ignores the
-              error of each call and goes on with the next one. *)
-Record reply := mkreply { rhdr : Z; mhdr : Z; rbody : list op; egroups : list (list op) }.
+    [ebody]  WriteMessageBegin(EXCEPTION) .. Flush of the RESPONSE_TOO_LARGE exception reply. *)
+Record reply := mkreply { rhdr : Z; mhdr : Z; rbody : list op; ebody : list op }.
 Definition reply_ok (r : reply) : Prop :=
-  5 <= rhdr r /\ 5 <= mhdr r /\ ops_nonneg (rbody r) /\ Forall ops_nonneg (egroups r).
+  5 <= rhdr r /\ 5 <= mhdr r /\ ops_nonneg (rbody r) /\ ops_nonneg (ebody r).
 
 Definition reply_size (r : reply) : Z := 4 + rhdr r + ops_size (rbody r).
-Definition egroups_size (g : list (list op)) : Z := fold_right (fun l a => ops_size l + a) 0 g.
 
 (** what sits in the server's output buffer when processing ends *)
 Inductive frame_kind :=
 | FReply          (* the complete normal reply *)
-| FTooLarge       (* a complete RESPONSE_TOO_LARGE exception message (with some header block) *)
-| FBroken.        (* left-overs of writes after a reset: not a well-formed frame *)
+| FTooLarge.      (* a complete RESPONSE_TOO_LARGE exception message *)
 
-(** sendError's body: each protocol call runs until its first failing write; the next call
-    goes on regardless.  [clean] = no write has failed since the header block was written. *)
-Fixpoint run_groups (b : buf) (clean : bool) (gs : list (list op)) : buf * bool :=
-  match gs with
-  | [] => (b, clean)
-  | g :: r => let '(b', ok) := run_ops b g in run_groups b' (clean && ok) r
-  end.
-
-(** processor.go sendError on a buffer: header block (falling back to the op-id-only block when
-    the full one is rejected for its size), then the exception message. *)
+(** processor.go sendError (writeException) on a buffer: the exception message with the full
+    response headers, written up to the first error; if that fails for size (the buffer has
+    emptied itself), once more with the op-id-only header block. *)
 Definition send_error (b : buf) (r : reply) : buf * bool :=
-  let '(b1, ok1) := buf_op b (W (rhdr r)) in
-  let '(b2, ok2) := if ok1 then (b1, true) else buf_op b1 (W (mhdr r)) in
-  run_groups b2 ok2 (egroups r).
+  let '(b1, ok1) := run_ops b (W (rhdr r) :: ebody r) in
+  if ok1 then (b1, true) else run_ops b1 (W (mhdr r) :: ebody r).
+
+(** size of the error reply that goes out: with the full header block if that fits, else with
+    the op-id-only block *)
+Definition err_size (lim : Z) (r : reply) : Z :=
+  let full := 4 + rhdr r + ops_size (ebody r) in
+  if (0 <? lim) && (lim <? full) then 4 + mhdr r + ops_size (ebody r) else full.
 
 (** processor.go SendReply + trapError on the bounded buffer of nats_server.go processFrame;
     result: what is published on the reply subject (None = nothing: HasWriteData false) *)
 Definition server_bounded (lim : Z) (r : reply) : option (frame_kind * Z) :=
-  let b0 := new_buf lim in
-  let '(b1, ok1) := buf_op b0 (W (rhdr r)) in
-  let '(b2, ok2) := if ok1 then run_ops b1 (rbody r) else (b1, false) in
+  let '(b2, ok2) := run_ops (new_buf lim) (W (rhdr r) :: rbody r) in
   if ok2 then Some (FReply, frame_len b2)
   else
-    let '(b3, clean) := send_error b2 r in
-    if has_write_data b3 then Some (if clean then FTooLarge else FBroken, frame_len b3) else None.
+    let '(b3, ok3) := send_error b2 r in
+    (* the code tests HasWriteData only; a failed second attempt leaves the buffer empty *)
+    if ok3 && has_write_data b3 then Some (FTooLarge, frame_len b3) else None.
 
 (** * What the caller of FStandardClient.Call gets *)
 Inductive outcome :=
@@ -159,7 +165,7 @@ Inductive outcome :=
 | ReqTooLarge        (* TTransportException REQUEST_TOO_LARGE *)
 | RespTooLarge       (* TTransportException RESPONSE_TOO_LARGE *)
 | TimedOut           (* nothing came back *)
-| Garbled            (* a frame came back that is not a well-formed reply *)
+| Garbled            (* an error reply with a type id the client does not convert *)
 | NilTransport.      (* transport returned (nil, nil): frame of 4 bytes *)
 
 Definition outcome_code (o : outcome) : Z :=
@@ -177,7 +183,6 @@ Definition process_reply (k : frame_kind) : outcome :=
   | FReply => OkReply
   | FTooLarge => if app_response_too_large_written =? app_response_too_large_mapped
                  then RespTooLarge else Garbled
-  | FBroken => Garbled
   end.
 
 Definition call (t : transport) (m : msg) (r : reply) : call_result :=
